@@ -216,10 +216,12 @@ Conv(m, ty, x) ==
     [] ty = "nilable_i64" -> (IF x.t = "nil" THEN VNil
                               ELSE CASE x.t = "int" -> x [] x.t = "real" -> (IF IsTok(x) THEN Unspec ELSE VInt(TruncDy(x.i, x.e)))
                                      [] OTHER -> VInt(LenV(m, x)))
+    [] ty = "nilable_str" -> (IF x.t = "nil" THEN VNil ELSE IF x.t = "str" THEN x ELSE Bad)
 \* what a typed host function returns: a function of its first converted argument
 TypedResult(m, ty, x) ==
   CASE ty = "str" -> VInt(x.i) [] ty = "table" -> VInt(TabLen(m, x))
-    [] ty = "nilable_i64" -> (IF x.t = "nil" THEN VInt(-1) ELSE x) [] OTHER -> x
+    [] ty = "nilable_i64" -> (IF x.t = "nil" THEN VInt(-1) ELSE x)
+    [] ty = "nilable_str" -> (IF x.t = "nil" THEN VInt(-1) ELSE VInt(x.i)) [] OTHER -> x
 
 FailTask(m, name, inner, params, ix) == Raise(m, "TaskFailure", ix, [name |-> name, inner |-> inner, params |-> params])
 
